@@ -111,7 +111,8 @@ fn load_fonts() -> Result<Vec<Loaded>, String> {
         let n_glyphs = font.maxp().map(|m| m.num_glyphs() as u32).unwrap_or(0);
         let axes = font.axes().len();
         let is_glyf = outlines.format() == Some(OutlineGlyphFormat::Glyf);
-        let k = 12u32.min(n_glyphs);
+        // small fonts (incl. the synthetic one): every glyph is observed
+        let k = if n_glyphs <= 24 { n_glyphs } else { 12 };
         let mut sel: Vec<GlyphId> = (0..k).map(|i| GlyphId::new(((i as u64 * n_glyphs as u64) / k.max(1) as u64) as u32)).collect();
         sel.dedup();
         out.push(Loaded { name, font, outlines, n_glyphs, axes, is_glyf, sel, extra: idx >= n_f });
@@ -619,7 +620,7 @@ fn part2_buffers(run: &Run, fonts: &[Loaded]) {
     }
     run.count("part2_buffer_configurations", cfgs.len() as u64);
     run.bound("buffer_alignments", json!([0, 1, 2, 3, 4, 5, 6, 7]));
-    run.bound("buffer_fills", json!(["00", "ff"]));
+    run.bound("buffer_fills", json!(["00", "ff", "5a"]));
     let locals: Vec<Local> = cfgs
         .par_iter()
         .map(|&c| {
@@ -642,7 +643,7 @@ fn part2_buffers(run: &Run, fonts: &[Loaded]) {
                 let size = gl.draw_memory_size(hinting);
                 let nt = matches!(&reference, Outcome::Ok { cmds, .. } if !cmds.is_empty());
                 for align in 0..8usize {
-                    for fill in [0u8, 0xFF] {
+                    for fill in [0u8, 0xFF, 0x5A] {
                         let got = with_aligned(size, align, fill, |m| draw(&gl, &how, Some(m)));
                         draws += 1;
                         l.add(digest_of(&("p2", c, gid, align, fill, &got)), nt);
